@@ -29,8 +29,8 @@ ASSUMPTIONS = [
 ]
 MANIFEST = {
     "level": "exploration",
-    "technique": "model-based property testing: enumerated + Hypothesis-generated storage histories with a whole-store integrity invariant (hash/key agreement, dedup, immutability) after every step",
-    "text": "The store-wide integrity invariant is evaluated after every operation of every generated history on the filesystem backends; small scope is exhaustive, longer histories are sampled.",
+    "technique": "model-based property testing: enumerated + Hypothesis-generated storage histories with a whole-store integrity invariant (hash/key agreement, dedup, immutability) after every step; exhaustive fault-point enumeration of one memoize; one-preemption schedule enumeration of two writers of one override key",
+    "text": "The store-wide integrity invariant is evaluated after every operation of every generated history on the filesystem backends (small scope exhaustive, longer histories sampled), after every crash/error point of an interrupted memoize followed by fault-free writes of the same bytes, and after every one-preemption interleaving of two calls publishing under one override key.",
     "note": "Trusts SHA-256 and the DataSource read path used to observe; bounded alphabets.",
 }
 
